@@ -11,7 +11,9 @@ Only what the fixed statement of C20 says is stated; everything else is UNSPEC:
                      position, which must lie inside the expression text (any mode)
   NDJSON, document k malformed JSON      -> contributes no output line and status 3
                      empty line          -> UNSPEC (NDJSON readers may skip empty lines)
-                     well-formed, no -b  -> value: status 0 and its JSON text; evaluation error: UNSPEC
+                     well-formed, no -b  -> value: status 0 and its JSON text; evaluation error: status UNSPEC,
+                                            exactly one output line holding some JSON text (so that output
+                                            line k keeps belonging to document k)
                      well-formed, -b     -> true: 0, false: 1; anything else: UNSPEC (the statement gives
                                             the 0/1/2 table for -n only); stdout free
   stream             stdout = concatenation of the one-document outputs, status = max of the
@@ -108,7 +110,7 @@ def parse_line(stdout):
 
 
 def stdout_problem(expected, stdout):
-    """None when stdout meets the expectation: FREE, ("empty",) or ("json", doc)."""
+    """None when stdout meets the expectation: FREE, ("empty",), ("line",) or ("json", doc)."""
     if expected is FREE or expected is UNSPEC:
         return None
     if expected == ("empty",):
@@ -116,6 +118,8 @@ def stdout_problem(expected, stdout):
     tag, doc = parse_line(stdout)
     if tag == "bad":
         return doc
+    if expected == ("line",):
+        return None
     d = jsonref.first_diff(expected[1], doc)
     if d is None:
         return None
@@ -131,7 +135,7 @@ def expect(mode, o, boolean, doc_kind="ok"):
     """(status, stdout, needs_location) for one run.
     mode: "null" (-n) | "doc" (one NDJSON line, or the -s input); o: outcome of the expression on
     that input (ignored for malformed/empty documents); doc_kind: "ok" | "malformed" | "empty".
-    status is an int or UNSPEC; stdout is FREE, UNSPEC, ("empty",) or ("json", doc)."""
+    status is an int or UNSPEC; stdout is FREE, UNSPEC, ("empty",), ("line",) or ("json", doc)."""
     if o[0] == "P":
         return (1, FREE, True)
     if o[0] == "X":
@@ -156,8 +160,8 @@ def expect(mode, o, boolean, doc_kind="ok"):
         return (UNSPEC, UNSPEC, False)
     if o[0] == "V":
         j = _value_json(o)
-        return (UNSPEC, UNSPEC, False) if j is UNSPEC else (0, j, False)
-    return (UNSPEC, UNSPEC, False)
+        return (UNSPEC, ("line",), False) if j is UNSPEC else (0, j, False)
+    return (UNSPEC, ("line",), False)
 
 
 _POS = re.compile(r"(?<![0-9])([0-9]+):([0-9]+)(?![0-9])")
@@ -210,7 +214,9 @@ def selftest():
     # test_main_slurp_bool_status: -s -b false -> status 1; process_json_doc tests: malformed -> 3
     assert expect("doc", F, True)[0] == 1 and expect("doc", T, True)[0] == 0 and expect("doc", one, True)[0] is UNSPEC
     assert expect("doc", one, False, "malformed") == (3, ("empty",), False) and expect("doc", one, False, "empty")[0] is UNSPEC
-    assert expect("doc", s, False) == (0, ("json", "\u00e9"), False) and expect("doc", E, False)[0] is UNSPEC
+    assert expect("doc", s, False) == (0, ("json", "\u00e9"), False) and expect("doc", E, False) == (UNSPEC, ("line",), False)
+    assert expect("doc", E, True)[1] is UNSPEC and expect("null", E, False)[1] is UNSPEC
+    assert stdout_problem(("line",), "null\n") is None and stdout_problem(("line",), "") and stdout_problem(("line",), "a\nb\n") and stdout_problem(("line",), "nope\n")
     assert expect("null", ("V", "double", "7ff0000000000000", "DoubleType"), False)[0] is UNSPEC
     assert expect("null", ("V", "map", ((("int", 1), ("int", 2)),), "MapType"), False)[0] is UNSPEC
     assert json_of("map", ((("string", "a"), ("list", ())),)) == {"a": []} and json_of("bytes", "6162") == "YWI="
